@@ -253,6 +253,13 @@ func calQueryDoc(r *RNG, q *caldav.CalendarQuery, mut string) *wEl {
 		cd.children[0].children = []*wEl{E(nsCal, "allprop"), E(nsCal, "prop").A("name", "UID")}
 	case "allcomp-and-comp":
 		cd.children[0].children = []*wEl{E(nsCal, "allcomp"), E(nsCal, "comp").A("name", "VEVENT")}
+	case "nested-allprop-and-prop":
+		// the same contradictions two and three levels down: every comp of the selection is held to the grammar
+		cd.children[0].children = []*wEl{E(nsCal, "comp", E(nsCal, "allprop"), E(nsCal, "prop").A("name", "SUMMARY")).A("name", "VEVENT")}
+	case "nested-allcomp-and-comp":
+		cd.children[0].children = []*wEl{E(nsCal, "allprop"), E(nsCal, "comp", E(nsCal, "allcomp"), E(nsCal, "comp").A("name", "VALARM")).A("name", "VEVENT")}
+	case "deep-allprop-and-prop":
+		cd.children[0].children = []*wEl{E(nsCal, "comp", E(nsCal, "prop").A("name", "UID"), E(nsCal, "comp", E(nsCal, "allprop"), E(nsCal, "prop").A("name", "TRIGGER")).A("name", "VALARM")).A("name", "VEVENT")}
 	case "wrong-root":
 		root.local = "calendar-query2"
 	case "wrong-root-ns":
@@ -550,7 +557,7 @@ func famCalWire(o *Out, r *RNG, thorough bool) {
 	}
 	muts := []string{"", "", "", "", "", "", "explicit-defaults", "explicit-defaults", "bad-negate", "bad-date", "bad-date-2", "empty-date", "empty-date-2", "empty-expand", "local-date", "bad-expand",
 		"comp-ind-with-range", "comp-ind-with-prop", "comp-ind-with-comp", "prop-ind-with-match", "prop-ind-with-range", "prop-ind-with-param",
-		"param-ind-with-match", "allprop-and-prop", "allcomp-and-comp", "wrong-root", "wrong-root-ns", "wrong-filter-ns", "wrong-compfilter-ns",
+		"param-ind-with-match", "allprop-and-prop", "allcomp-and-comp", "nested-allprop-and-prop", "nested-allcomp-and-comp", "deep-allprop-and-prop", "wrong-root", "wrong-root-ns", "wrong-filter-ns", "wrong-compfilter-ns",
 		"wrong-nested-ns", "wrong-comp-ns", "wrong-dataprop-ns", "no-filter", "no-prop", "dav-allprop", "dav-propname", "no-calendar-data",
 		"empty-calendar-data", "empty-calendar-data", "nocomp-expand", "nocomp-expand", "two-time-ranges", "two-filters"}
 	for i := 0; i < n; i++ {
